@@ -121,6 +121,17 @@ class TalCheck(CheckBase):
                                  data=case.get("data", False))
             if case.get("crlf"):
                 src = src.replace("\n", "\r\n")
+            if case.get("bom"):
+                # a text that begins with U+FEFF (a file saved "with
+                # signature", decoded by the application): one more
+                # character on line 1, and the first one of the output
+                src = "\ufeff" + src
+                for o in occ:
+                    for f_ in ("start", "end", "value_start", "part_start"):
+                        if o.get(f_) is not None:
+                            o[f_] += 1
+                    if o["line"] == 1:
+                        o["col"] += 1
         log.add("src", short_hash(src))
         try:
             if tmpdir is not None:
@@ -161,6 +172,8 @@ class TalCheck(CheckBase):
                 except Exception:       # noqa: BLE001 - the oracle's business
                     pass
             m = run_model(tmpl, plan, hcfg)
+            if case.get("bom") and m.get("out") is not None:
+                m["out"] = "\ufeff" + m["out"]
             stats["plans"] += 1
             stats["probe_calls"] += len(r["history"])
             for _, _, exc in r["raised"]:
